@@ -327,14 +327,26 @@ def run(ctx):
   ctx.notes["frame_records"] = len(recs)
   lap("tlc_byte_oracle")
   # 4. spec -> code ------------------------------------------------------------------------
+  for n in names:                       # literal samples for the evidence: one short emitting behaviour per config
+    pick = [b for b in exported[n] if b[-1]["a"] in TRAFFIC and b[-1]["exp"]["em"] and len(b) <= 4]
+    if pick and len(ctx.samples) < 5:
+      ctx.samples.append(concretise(pick[(ctx.seed + len(pick) // 2) % len(pick)], orc, shapes))
   last = None
+  total = dict()
   for n in names:
     behs = [concretise(b, orc, shapes) for b in exported[n]]
+    for k, v in describe_cover(behs).items():
+      total[k] = total.get(k, 0) + v
     params = dict(NP=3, MissLen=128, **CONFIGS[n][1])
     replay(ctx, n, behs, params)
     if last is None and core.replay.last_ok:
       negative_control(ctx, behs, params)
       last = n
+  # vacuity guard on what was replayed: the clauses of the property must have been exercised
+  empty = [k for k in ("emitting", "multi_port_groups", "ingress_drops", "packet_ins", "optional_packet_ins",
+                       "truncated_packet_ins", "lists_len3plus") if not total.get(k)]
+  if empty:
+    raise tlc.TLCError("vacuous export: no behaviour exercises %s" % empty)
   behs = [concretise(b, orc, shapes) for b in exported["sim"]]
   replay(ctx, "sim", behs, dict(NP=3, MissLen=128, MaxHeld=2), chunk=10)
   if last is None:
@@ -343,8 +355,8 @@ def run(ctx):
   # 5. code -> spec --------------------------------------------------------------------------
   hexes = {s: orc.hex(rec) for s, rec in shapes.items()}
   jobs = []
-  for kind, cfg, ntr in (("free", "Trace.cfg", 60 if quick else 600), ("buf", "Trace_buf.cfg", 30 if quick else 300)):
-    items = [dict(seed=ctx.seed * 100003 + i, n=25, kind=kind, hexes=hexes) for i in range(ntr)]
+  for kind, cfg, ntr in (("free", "Trace.cfg", 60 if quick else 1500), ("buf", "Trace_buf.cfg", 30 if quick else 600)):
+    items = [dict(seed=ctx.seed * 100003 + i, n=25 if quick else 30, kind=kind, hexes=hexes) for i in range(ntr)]
     traces = core.run_driver("props.C12:drive", items)
     bad1, bad2 = corrupt(traces)
     jobs.append((kind, cfg, traces, [bad1, bad2]))
@@ -361,7 +373,7 @@ def run(ctx):
       if t >= len(traces):
         continue
       ctx.report(trace_signature(traces[t], matched),
-                 dict(trace=traces[t][:matched + 1], failing_step=matched, kind=kind,
+                 dict(trace=traces[t][:matched + 1], failing_step=matched, kind=kind, hexes=hexes,
                       note="TLC rejected the recorded trace at this event (TraceDatapath.tla, %s)" % cfg))
     ctx.traces += len(traces)
     for t in traces:
@@ -407,27 +419,90 @@ def trace_signature(trace, i):
   shape = ev["args"].get("f", "")
   return dict(action=ev["a"], via="trace", enqueue="enqueue" in types,
               table=any(x["t"] == "output" and x["n"] == 0xfff9 for l in lists for x in l),
-              odd_l4=str(shape).endswith("_odd"), cfi=shape == "t_cfi",
+              odd_l4=str(shape).endswith("_odd"), cfi=shape == "t_cfi", first_frag=shape in FIRST_FRAGS,
               ecn=str(shape).endswith("_ecn") and "set_nw_tos" in types,
               observed=("exception:" + ev["obs"].get("exc", "?")) if not ev["wf"] else "rejected")
 
 
 SHAPES_FREE = ["u_tcp", "t_tcp", "u_udp", "t_udp", "u_udp_ecn", "u_udp0", "u_big", "u_icmp", "t_icmp", "u_ipx",
-               "u_tcp_odd", "u_udp_odd", "u_icmp_odd", "t_cfi", "u_frag1", "u_frag2", "u_arp", "t_arp", "u_oth",
+               "u_tcp_odd", "u_udp_odd", "u_icmp_odd", "t_cfi", "u_frag1", "t_frag1t", "u_frag2", "u_arp", "t_arp", "u_oth",
                "bpdu"]
 BITS = fr.MODEL_BITS
+FIRST_FRAGS = ("u_frag1", "t_frag1t")
+
+
+def nw_rewrite(acts):
+  return any(a["t"] in ("set_nw_src", "set_nw_dst", "set_tp_src", "set_tp_dst") for a in acts)
+
+
+class Recorder(object):
+  """Performs operations on the real switch and records them in the trace schema
+  TraceDatapath.tla reads; keeps the little bookkeeping the generator needs to
+  stay inside the model (what it configured itself, how many frames are buffered)."""
+
+  def __init__(self, kind, hexes):
+    from harness.adapters_c12 import Adapter
+    self.buf = kind == "buf"
+    self.hexes = hexes
+    self.ad = Adapter(NP=3, MissLen=128, MaxHeld=3 if self.buf else 0)
+    self.cfg = {q: set() for q in (1, 2, 3)}
+    self.has_flow, self.flow, self.held = False, [], 0
+    self.heldff = []               # per buffered frame: is it a first fragment
+    self.trace = []
+
+  def perform(self, a, args):
+    sargs = dict(args)
+    if a in ("Rx", "PacketOut"):
+      sargs["hex"] = self.hexes[args["f"]]
+    try:
+      obs = self.ad.step(a, sargs)
+      wf = True
+    except Exception as e:
+      obs, wf = dict(exc=type(e).__name__), False
+    # fixed schema per action
+    if a in TRAFFIC:
+      ok = wf and set(obs) == {"em", "pins", "stats"} and isinstance(obs["stats"], list) and \
+          all(isinstance(x, list) for x in obs["stats"])
+      if ok:
+        obs = dict(em=[dict(port=p, b=list(bytes.fromhex(h))) for p, h in obs["em"]],
+                   pins=[dict(inport=p["inport"], reason=p["reason"], total=p["total"],
+                              data=list(bytes.fromhex(p["data"]))) for p in obs["pins"]],
+                   stats=obs["stats"])
+        if a == "PacketOutBuf":
+          self.held -= 1
+          ff = self.heldff.pop(args["k"] - 1) if args["k"] <= len(self.heldff) else False
+        else:
+          ff = args["f"] in FIRST_FRAGS
+        if self.buf:
+          self.held += len(obs["pins"])
+          self.heldff.extend([ff] * len(obs["pins"]))
+      else:
+        obs = dict(em=[], pins=[], stats=[],
+                   exc=obs.get("exc", "malformed-observation") if isinstance(obs, dict) else "?")
+        wf = False
+    elif a in ("PortMod", "PortModBad"):
+      ok = wf and set(obs) == {"config"} and all(isinstance(c, list) for c in obs["config"])
+      if ok and a == "PortMod":
+        self.cfg[args["p"]] = (self.cfg[args["p"]] - set(args["mask"])) | (set(args["conf"]) & set(args["mask"]))
+      if not ok:
+        obs, wf = dict(config=[], exc=obs.get("exc", "malformed-observation")), False
+    else:
+      ok = wf and obs == {"x": 0}
+      obs = dict(quiet=bool(ok))
+      if ok and a == "FlowMod":
+        self.has_flow, self.flow = True, args["acts"]
+      elif ok and a == "FlowDel":
+        self.has_flow, self.flow = False, []
+      wf = wf and ok
+    self.trace.append(dict(a=a, args=args, obs=obs, wf=bool(wf)))
+    return bool(wf)
 
 
 def drive(item):
   """One seeded random history on the real switch; returns the recorded trace."""
-  from harness.adapters_c12 import Adapter
   rnd = random.Random(item["seed"])
-  kind, hexes = item["kind"], item["hexes"]
-  buf = kind == "buf"
-  ad = Adapter(NP=3, MissLen=128, MaxHeld=3 if buf else 0)
-  cfg = {q: set() for q in (1, 2, 3)}
-  has_flow, flow, held = False, [], 0
-  tr = []
+  rec = Recorder(item["kind"], item["hexes"])
+  buf = rec.buf
 
   def pins_of(acts):          # upper bound of packet-ins a list can cause
     return sum(1 for a in acts if a["t"] == "output" and a["n"] == 0xfffd)
@@ -436,29 +511,35 @@ def drive(item):
     k = rnd.random()
     a = args = None
     if k < 0.14:
-      if has_flow:
+      if rec.has_flow:
         a, args = "FlowDel", dict(x=0)
       else:
         a, args = "FlowMod", dict(acts=random_list(rnd, controller=not buf or rnd.random() < 0.5))
     elif k < 0.50:
       p = rnd.randint(1, 3)
-      if "PORT_DOWN" in cfg[p]:
-        continue
+      if "PORT_DOWN" in rec.cfg[p]:
+        continue                             # outside the model
       a, args = "Rx", dict(p=p, f=rnd.choice(SHAPES_FREE))
-      if buf and held + (pins_of(flow) if has_flow else 1) > 3:
+      if buf and rec.held + (pins_of(rec.flow) if rec.has_flow else 1) > 3:
         continue
+      if args["f"] in FIRST_FRAGS and nw_rewrite(rec.flow):
+        continue                             # outside the model (Datapath!InModel)
     elif k < 0.74:
       acts = random_list(rnd, maxlen=5, controller=not buf or rnd.random() < 0.3)
       if rnd.random() < 0.25:
         acts = acts + [TABLE]
       a, args = "PacketOut", dict(ip=rnd.choice([1, 2, 3, 0xffff]), f=rnd.choice(SHAPES_FREE), acts=acts)
-      worst = pins_of(acts) + (max(pins_of(flow), 1) if acts[-1] == TABLE else 0)
-      if buf and held + worst > 3:
+      worst = pins_of(acts) + (max(pins_of(rec.flow), 1) if acts[-1] == TABLE else 0)
+      if buf and rec.held + worst > 3:
+        continue
+      if args["f"] in FIRST_FRAGS and (nw_rewrite(acts) or (acts[-1] == TABLE and nw_rewrite(rec.flow))):
         continue
     elif k < 0.82 and buf:
-      if not held:
+      if not rec.held:
         continue
-      a, args = "PacketOutBuf", dict(k=rnd.randint(1, held), acts=random_list(rnd, maxlen=4, controller=False))
+      a, args = "PacketOutBuf", dict(k=rnd.randint(1, rec.held), acts=random_list(rnd, maxlen=4, controller=False))
+      if rec.heldff[args["k"] - 1] and nw_rewrite(args["acts"]):
+        continue
     elif k < 0.95:
       bits = [b for b in BITS if not (buf and b == "NO_PACKET_IN")]
       mask = rnd.sample(bits, rnd.choice([1, 1, 1, 2, len(bits)]))
@@ -470,44 +551,35 @@ def drive(item):
         a, args = "PortMod", dict(p=rnd.randint(1, 3), mask=sorted(mask), conf=sorted(conf))
     else:
       a, args = "SetFrag", dict(drop=rnd.random() < 0.5)
-    sargs = dict(args)
-    if a in ("Rx", "PacketOut"):
-      sargs["hex"] = hexes[args["f"]]
-    try:
-      obs = ad.step(a, sargs)
-      wf = True
-    except Exception as e:
-      obs, wf = dict(exc=type(e).__name__), False
-    # fixed schema per action
-    if a in TRAFFIC:
-      ok = wf and set(obs) == {"em", "pins", "stats"} and isinstance(obs["stats"], list) and \
-          all(isinstance(s, list) for s in obs["stats"])
-      if ok:
-        obs = dict(em=[dict(port=p, b=list(bytes.fromhex(h))) for p, h in obs["em"]],
-                   pins=[dict(inport=p["inport"], reason=p["reason"], total=p["total"],
-                              data=list(bytes.fromhex(p["data"]))) for p in obs["pins"]],
-                   stats=obs["stats"])
-        held += len(obs["pins"]) if buf else 0
-        if a == "PacketOutBuf":
-          held -= 1
-      else:
-        obs = dict(em=[], pins=[], stats=[], exc=obs.get("exc", "malformed-observation") if isinstance(obs, dict) else "?")
-        wf = False
-    elif a in ("PortMod", "PortModBad"):
-      ok = wf and set(obs) == {"config"} and all(isinstance(c, list) for c in obs["config"])
-      if ok and a == "PortMod":
-        cfg[args["p"]] = (cfg[args["p"]] - set(args["mask"])) | (set(args["conf"]) & set(args["mask"]))
-      if not ok:
-        obs, wf = dict(config=[], exc=obs.get("exc", "malformed-observation")), False
-    else:
-      ok = wf and obs == {"x": 0}
-      obs = dict(quiet=bool(ok))
-      if ok and a == "FlowMod":
-        has_flow, flow = True, args["acts"]
-      elif ok and a == "FlowDel":
-        has_flow, flow = False, []
-      wf = wf and ok
-    tr.append(dict(a=a, args=args, obs=obs, wf=bool(wf)))
-    if not wf:
+    if not rec.perform(a, args):
       break                                  # the switch can no longer be trusted
-  return tr
+  return rec.trace
+
+
+def redrive(item):
+  """Perform a recorded operation sequence again on the current tree."""
+  rec = Recorder(item["kind"], item["hexes"])
+  for a, args in item["ops"]:
+    if not rec.perform(a, args):
+      break
+  return rec.trace
+
+
+def replay_one(ctx, rep):
+  """./check C12 --replay FILE : re-run one recorded finding against the current tree."""
+  if "behaviour" in rep:
+    core.replay(ctx, rep["adapter"], [rep["behaviour"]], params=rep.get("params"), procs=1)
+    return
+  ops = [(e["a"], e["args"]) for e in rep["trace"]]
+  trace = core.run_driver("props.C12:redrive", [dict(kind=rep["kind"], hexes=rep["hexes"], ops=ops)], procs=1)[0]
+  good = [dict(a="SetFrag", args=dict(drop=False), obs=dict(quiet=True), wf=True)]
+  bad = [dict(a="SetFrag", args=dict(drop=False), obs=dict(quiet=False), wf=True)]
+  cfg = "Trace_buf.cfg" if rep["kind"] == "buf" else "Trace.cfg"
+  r, rej = tracecheck.validate(DIR, "TraceDatapath", cfg, [trace, good, bad], tag="C12", timeout=600)
+  rejected = dict(rej)
+  if 1 in rejected or 2 not in rejected:
+    raise tlc.TLCError("trace validation controls failed during replay")
+  if 0 in rejected:
+    m = rejected[0]
+    ctx.report(trace_signature(trace, m), dict(trace=trace[:m + 1], failing_step=m, kind=rep["kind"],
+                                               hexes=rep["hexes"]))
